@@ -43,6 +43,7 @@ def run(ck):
     ck.rule("C01.R16", "first hit of a callsite: only the winner of the registration CAS registers; a loser answers `sometimes`, never a definitive cached value (as C04.R4)", floor=4)
     ck.rule("C01.R17", "`the emitting thread's current collector` is resolved as C02 says: get_default's fast path iff no scope exists anywhere, else the thread's scoped default or the published global one (as C02.R2/R3/R4)", floor=10)
     ck.rule("C01.R18", "no registered callsite is lost to later re-evaluations: the registry's lock-free push (as C04.R3)", floor=5)
+    ck.rule("C01.R19", "the questions the macros ask their Dispatch are the collector's: Dispatch::enabled / register_callsite / max_level_hint forward 1:1 (as C09.R4)", floor=3)
     ck.rule("C01.R8", "STATIC_MAX_LEVEL table under each max_level feature, each release_max_level feature and pairs of both, with and without debug assertions", floor=30)
     ck.rule("C01.R11", "collector wrappers forward the interest / enabled / hint questions to the wrapped collector (as C09.R1/R2)", floor=20)
     ck.rule("C01.R10", "interest rebuilds, collector registration and first-hit registration are serialised by the registry lock (as C04.R1)", floor=3)
@@ -75,6 +76,7 @@ def run(ck):
     from rules import C04 as _C04
     _C04.r4(ck, F, rid="C01.R16")
     _C04.r3(ck, F, rid="C01.R18")
+    C09.dispatch_forwarding(ck, F, rid="C01.R19", only={"enabled", "register_callsite", "max_level_hint"})
     from rules import C02 as _C02
     _C02.r2(ck, F, rid="C01.R17")
     _C02.r3(ck, F, rid="C01.R17")
